@@ -80,6 +80,29 @@ def run(e: Engine, rep: Report):
     r39(e, rep, 'R3.9')
     from . import c15 as _c15
     _c15.i16(e, rep, 'R3.10')
+    rep.rule('R3.11', '= C01-R1.7: a recipient is filed for another attempt '
+             'only if its result is a TransientRelayError (by class, not by '
+             'what its reply says): one the relay reported as permanently '
+             'failed is settled')
+    from . import c01 as _c01
+    sub = Report(rep.prop, rep.tier, rep.repo)
+    _c01.r17(e, sub)
+    for o in sub.obls:
+        rep.add('R3.11', o.where, o.text, o.status, o.what, o.loc, o.witness,
+                o.nontrivial, o.reason)
+    rep.errors += sub.errors
+    rep.evaluations += sub.evaluations
+    rep.functions |= sub.functions
+    rep.rule('R3.12', '= C15-I17: storage objects do not share state: no '
+             'class-level mutable of a storage class is changed in place '
+             'without __init__ giving every instance its own on every path '
+             '(two queues over "their own" default store would each attempt '
+             'the other\'s messages)')
+    common.shared_state_rule(
+        e, rep, 'R3.12', ['slimta.queue.dict', 'slimta.diskstorage',
+                          'slimta.redisstorage', 'slimta.cloudstorage'],
+        'a second queue loads and attempts the messages of the first: the '
+        'same recipients are attempted by both at the same time')
     rep.floor('R3.1', 2, 'attempt spawn sites')
     rep.floor('R3.7', 2, 'release sites of the in-flight mark')
 
